@@ -589,6 +589,13 @@ func (fc *FuncCtx) applyContract(c *ast.CallExpr, st *State, ct *Contract, fn *t
 	if ct.Trusted != "" || ct.Extern {
 		e.assumed["assumed contract: "+ct.Key] = true
 	}
+	if ct.Trusted != "" && !ct.Extern && fn != nil {
+		if e.trustedUsed == nil {
+			e.trustedUsed = map[string]bool{}
+		}
+		tp, tk := funcKey(fn)
+		e.trustedUsed[tp+":"+tk] = true
+	}
 	// ghost statements after the call may name the callee's results
 	fc.ghostNames = map[string]*Value{}
 	for i, rv := range results {
